@@ -83,8 +83,24 @@ def spec (cs : Case) (i : Impl) : Bool :=
     && ownOk (implDownToks i)
     && termOk cs i t
 
+/-- kind `upf` (proxy6, B): an upstream reset delivered by a sender filter while the worker runs the UpFilter phase, after
+the head of a streamed response was accepted and before anything was forwarded.  The downstream machine has no label for
+it yet (stated partial: no model side, `A` always); the predicate is the declarative part of `spec` that does not need the
+schedule: sender protocol respected, the exchange FINISHED with a complete reply (end of stream), cleaned exactly once,
+upstream gauge back at 0 — theorems `sender_once`, `outcome_total`, `clean_once` state this for every label the machine has. -/
+def upfRun (impl : List String) : String :=
+  match parseImpl impl with
+  | some i =>
+    match implTrace i with
+    | some t =>
+      let ok := senderOk t && i.done && t.any isEos && nLog t == 1 && i.up == 0 && i.down == 0 && ownOk (implDownToks i)
+      s!"A {if ok then "S" else "V"} -"
+    | none => "E E bad-upf"
+  | none => "E E bad-upf"
+
 def run (caseToks impl : List String) : String :=
   if caseToks.head? == some "mc" then DownstreamMC.run caseToks else
+  if caseToks.head? == some "upf" then upfRun impl else
   match parseCase caseToks, parseImpl impl with
   | some cs, some i =>
     let out := renderOut cs
